@@ -21,6 +21,13 @@ type c01stringer struct{ s string }
 
 func (s c01stringer) String() string { return s.s }
 
+// unset interface-typed fields: their printed form is "<nil>" and is escaped like any other value
+type c01nilFields struct {
+	Err error
+	Str fmt.Stringer
+	Any interface{}
+}
+
 type c01value struct {
 	name    string
 	kind    string
@@ -80,6 +87,7 @@ func c01values(r *rand.Rand, idx int) []c01value {
 	k, v := s(), s()
 	add("map[string]string", map[string]string{k: v}, "map["+k+":"+v+"]")
 	add("nil-pointer", (*int)(nil), "<nil>")
+	add("struct-with-nil-interface-fields", c01nilFields{}, "")
 	add("int", -42, "-42")
 	add("uint8", uint8(200), "200")
 	add("bool", true, "true")
@@ -129,6 +137,12 @@ func c01run(c *fw.Ctx, idx int) {
 	kindOf := map[string]string{}
 	for _, v := range vals {
 		extra[v.name] = v.goVal
+		if v.kind == "struct-with-nil-interface-fields" {
+			for _, f := range []string{"Err", "Str", "Any"} {
+				opaques = append(opaques, prog.Opaque{Src: v.name + "." + f, Val: prog.Str("<nil>")})
+			}
+			continue
+		}
 		opaques = append(opaques, prog.Opaque{Src: v.name, Val: prog.Str(v.printed)})
 		kindOf[v.name] = v.kind
 	}
@@ -166,6 +180,15 @@ func c01run(c *fw.Ctx, idx int) {
 		{"default-html", nil, template.HTMLEscapeString},
 		{"nil-escaper", jet.WithSafeWriter(nil), nil},
 		{"tagging-escaper", jet.WithSafeWriter(tagEsc), c01hexTag(1, 2)},
+	}
+	// the option given last is the Set's escaper (e.g. shared base options switching escaping off, overridden per Set)
+	switch idx % 4 {
+	case 1:
+		configs[2] = config{"nil-then-tagging-escaper", c01opts(jet.WithSafeWriter(nil), jet.WithSafeWriter(tagEsc)), c01hexTag(1, 2)}
+	case 2:
+		configs[1] = config{"tagging-then-nil-escaper", c01opts(jet.WithSafeWriter(tagEsc), jet.WithSafeWriter(nil)), nil}
+	case 3:
+		configs[0] = config{"nil-then-html-escaper", c01opts(jet.WithSafeWriter(nil), jet.WithSafeWriter(template.HTMLEscape)), template.HTMLEscapeString}
 	}
 	fm := map[string]bool{}
 	for _, f := range feats {
@@ -251,6 +274,15 @@ func c01run(c *fw.Ctx, idx int) {
 	}
 	if idx%211 == 5 {
 		c.Sample(map[string]interface{}{"files": p.Sources(false), "features": feats})
+	}
+}
+
+// c01opts applies several options in order as one.
+func c01opts(os ...jet.Option) jet.Option {
+	return func(s *jet.Set) {
+		for _, o := range os {
+			o(s)
+		}
 	}
 }
 
